@@ -212,6 +212,13 @@ def check_case(rec, case):
         selfcheck(rec, ne == frozenset(w for w in L if not any(v.startswith(w) and v != w for v in L6)))
         rv = fa.language_upto(fa.r_reverse(R), 4)
         selfcheck(rec, rv == frozenset(w[::-1] for w in L))
+    elif kind == 'restrict':
+        R = case['ref']
+        rec.note_case(case, case['cls'], nontriv_lang(R))
+        for name in ('dfa_no_prefix', 'dfa_no_extend', 'dfa_remove_unreachable_states', 'dfa_reverse'):
+            o = call(getattr(da, name), adapt.build_dfa(R))
+            if not o.ok:
+                report_failure(rec, o, name)
     elif kind == 'partial':
         R = case['ref']
         rec.note_case(case, case['cls'], nontriv_lang(R))
@@ -290,6 +297,13 @@ def gen_cases(rec, rng, tier):
         R = fag.random_dfa(rng, n, k, names=rng.choice([None, fag.random_names(rng, n)]), p_final=rng.choice([0.15, 0.4, 0.8]))
         yield {'kind': 'unary', 'cls': 'random_dfa', 'ref': R}
         yield {'kind': 'partial', 'cls': 'partial_dfa', 'ref': make_partial(rng, R, rng.choice([0.1, 0.3, 0.7, 1.0]))}
+    # the prefix-free / non-extendable restrictions depend on cycles among non-accepting states and on the
+    # order in which accepting states and symbols are visited: many mid-size DFAs, several accepting states
+    for _ in range(4000 if thorough else 1200):
+        k = rng.randint(1, 3)
+        n = rng.randint(3, 8)
+        R = fag.random_dfa(rng, n, k, names=rng.choice([None, fag.random_names(rng, n)]), p_final=rng.choice([0.3, 0.5, 0.7]))
+        yield {'kind': 'restrict', 'cls': 'random_dfa_restrictions', 'ref': R}
     # names that collide with the helper names the constructions introduce
     for names in (['trap1', 'trap2', 'q1'], ['q1', 'q2', 'q3'], ['P1', 'trap', 'q']):
         R = fag.random_dfa(rng, 3, 2, names=names)
